@@ -312,7 +312,10 @@ def prune(terms, k=1, coarse=False):
         if e[0] == "R":
             own = ty(e[2]).inputs
             extra = (any(n not in own for n, _ in e[3]),)
-        key = (lang.head(e), extra, len(t.inputs) if coarse else tuple(sorted(t.inputs)), t.out)
+        if coarse == 2:
+            key = (lang.head(e), extra, t.out[0] == "real", len(t.out[1]))
+        else:
+            key = (lang.head(e), extra, len(t.inputs) if coarse else tuple(sorted(t.inputs)), t.out)
         n = buckets.get(key, 0)
         if n < k:
             buckets[key] = n + 1
@@ -325,14 +328,14 @@ def all_leaves(tier):
     return L["real"] + L["int"] + L["num"] + L["var"]
 
 
-def corpus(tier, families=FAMILIES, depth=2, k1=1, cap2=None):
+def corpus(tier, families=FAMILIES, depth=2, k1=1, cap2=None, coarse=None):
     """Terms of depth 1..depth.  Depth 1 is complete over the leaf alphabet; deeper levels use the pruned pool."""
     L0 = all_leaves(tier)
     level1 = expand(L0, L0, tier, families)
     out = list(level1)
     if depth >= 2:
         quick = tier != "thorough"
-        reps = prune(level1, k1, coarse=quick)
+        reps = prune(level1, k1, coarse=quick if coarse is None else coarse)
         level2 = expand(reps, companion(tier), tier, families, light=quick)
         if cap2:
             level2 = level2[:cap2]
